@@ -10,7 +10,7 @@ on the token view for declarations of the fragment
 
 where the specifiers are type qualifiers, storage classes (not `typedef`), function specifiers,
 type keywords and typedef names (at least one type specifier), and every declarator is a named
-declarator of `DeclSkel.D` without grouping parentheses (pointers with qualifiers, array and `()`
+declarator of `DeclSkel.D` (pointers with qualifiers, grouping parentheses, array and `()`
 suffixes, any length).  Typedef names of the static environment may be used as specifiers; the
 declared names must not be typedef names.
 -/
@@ -344,36 +344,326 @@ theorem scanStars_loop : ∀ (stars : List (List Tk)) (s : PState) (rest : List 
     show pScanStars (run G) s = _
     simp [pScanStars, DeclSkel.bnd, h1, h2, h3, DeclSkel.pur]
 
-/-- the look-ahead scan `_peek_declarator_name_info`: finds the identifier; `_reset(mark)` then goes
-back to the first token of the declarator -/
-theorem scan_ok (d : D) (hwf : WFD d) (hn : NoParen d) (s : PState) (rest : List Tk)
-    (hs : SeesT env s (d.flat ++ rest)) (F : Nat) (hF : starsNtoks (dStars d) + 3 ≤ F) :
-    ∃ s3, run F .scanDeclaratorNameInfo s = .ok (some "ID", false) s3 ∧
-      ∃ s4, reset s.idx s3 = .ok () s4 ∧ SeesT env s4 (d.flat ++ rest) ∧ s4.idx = s.idx := by
-  obtain ⟨G, rfl⟩ : ∃ G, F = G + 1 := ⟨F - 1, by omega⟩
-  have hflat := flat_noParen hwf hn
-  have hs0 : SeesT env s (starsFlat (dStars d) ++ (("ID", dName d) :: (dPost d ++ rest))) := by
-    rw [hflat] at hs; simpa [List.append_assoc] using hs
-  obtain ⟨s1, h1, hs1, hi1⟩ := scanStars_loop (dStars d) s _ G (dStars_quals hwf)
-    (by intro k v r h; simp only [List.cons.injEq, Prod.mk.injEq] at h; rw [← h.1.1]; exact ⟨by decide, by decide⟩) hs0 (by omega)
-  obtain ⟨s2, h2, hs2, _, hi2, _⟩ := peek_spec s1 "ID" (dName d) _ hs1
-  obtain ⟨s3, h3, hs3, _, hi3, _⟩ := advance_spec s2 "ID" (dName d) _ hs2
-  have hscan : run (G + 1) .scanDeclaratorNameInfo s = .ok (some "ID", false) s3 := by
-    show pScanDeclaratorNameInfo (run G) s = _
-    simp [pScanDeclaratorNameInfo, DeclSkel.bnd, h1, h2, h3, DeclSkel.pur]
-  obtain ⟨s4, h4, hs4, hi4⟩ := reset_to s s3 _ _ hs hs3 (by omega)
-  exact ⟨s3, hscan, s4, h4, hs4, hi4⟩
+/-! ## skipping to the matching parenthesis -/
 
-/-- **`_parse_any_declarator`** on a named declarator without grouping parentheses: the look-ahead
-scan finds the identifier, `_reset(mark)` goes back to the first token, and the declarator comes
-back as `parse_declarator` says -/
-theorem anyDeclarator_ok (d : D) (hwf : WFD d) (hn : NoParen d) (s : PState) (rest : List Tk)
-    (hs : SeesT env s (d.flat ++ rest)) (hfo : FollowD rest) (F : Nat) (hF : d.fuel + starsNtoks (dStars d) + 5 ≤ F)
+/-- what `scanParenSkip depth` leaves: the tokens after the `)` that brings the depth to 0 -/
+def skipF : Nat → List Tk → Option (List Tk)
+  | _, [] => none
+  | d, (k, _) :: r =>
+    if k == "LPAREN" then skipF (d + 1) r
+    else if k == "RPAREN" then (if d - 1 == 0 then some r else skipF (d - 1) r)
+    else skipF d r
+
+/-- parenthesis-balanced token lists -/
+inductive Bal : List Tk → Prop
+  | nil : Bal []
+  | tok (t : Tk) (r : List Tk) : t.1 ≠ "LPAREN" → t.1 ≠ "RPAREN" → Bal r → Bal (t :: r)
+  | paren (v v' : String) (a b : List Tk) : Bal a → Bal b → Bal (("LPAREN", v) :: (a ++ ("RPAREN", v') :: b))
+
+theorem Bal.append {a b : List Tk} (ha : Bal a) (hb : Bal b) : Bal (a ++ b) := by
+  induction ha with
+  | nil => exact hb
+  | tok t r h1 h2 _ ih => exact .tok t _ h1 h2 ih
+  | paren v v' a' b' ha' _ _ ih2 =>
+    have : ("LPAREN", v) :: (a' ++ ("RPAREN", v') :: b') ++ b = ("LPAREN", v) :: (a' ++ ("RPAREN", v') :: (b' ++ b)) := by simp
+    rw [this]; exact .paren v v' a' _ ha' ih2
+
+theorem Bal.single (t : Tk) (h1 : t.1 ≠ "LPAREN") (h2 : t.1 ≠ "RPAREN") : Bal [t] := .tok t [] h1 h2 .nil
+
+/-- a balanced stretch is skipped without changing the depth -/
+theorem skip_bal {a : List Tk} (ha : Bal a) : ∀ (d : Nat) (r : List Tk), skipF (d + 1) (a ++ r) = skipF (d + 1) r := by
+  induction ha with
+  | nil => intro d r; rfl
+  | tok t r' h1 h2 _ ih =>
+    intro d r
+    obtain ⟨k, v⟩ := t
+    have e1 : (k == "LPAREN") = false := by simpa using h1
+    have e2 : (k == "RPAREN") = false := by simpa using h2
+    simp only [List.cons_append, skipF, e1, e2, Bool.false_eq_true, ↓reduceIte]
+    exact ih d r
+  | paren v v' a' b' _ _ ih1 ih2 =>
+    intro d r
+    have : ("LPAREN", v) :: (a' ++ ("RPAREN", v') :: b') ++ r = ("LPAREN", v) :: (a' ++ (("RPAREN", v') :: (b' ++ r))) := by simp
+    rw [this]
+    simp only [skipF, beq_self_eq_true, ↓reduceIte]
+    rw [ih1 (d + 1) _]
+    simp only [skipF, show (("RPAREN" : String) == "LPAREN") = false from rfl, Bool.false_eq_true, ↓reduceIte,
+      beq_self_eq_true, Nat.add_sub_cancel]
+    have : (d + 1 == 0) = false := by simp
+    simp only [this, Bool.false_eq_true, ↓reduceIte]
+    exact ih2 d r
+
+theorem skip_close (r : List Tk) (v : String) : skipF 1 (("RPAREN", v) :: r) = some r := by
+  simp [skipF]
+
+theorem skipF_len : ∀ (toks : List Tk) (d : Nat) (rest : List Tk), skipF d toks = some rest → rest.length < toks.length
+  | [], _, _, h => by simp [skipF] at h
+  | (k, v) :: r, d, rest, h => by
+    simp only [skipF] at h
+    split at h
+    · have := skipF_len r _ rest h; simp; omega
+    · split at h
+      · split at h
+        · simp only [Option.some.injEq] at h; subst h; simp
+        · have := skipF_len r _ rest h; simp; omega
+      · have := skipF_len r _ rest h; simp; omega
+
+/-- the model's `scanParenSkip` computes `skipF` -/
+theorem scanParenSkip_ok : ∀ (toks : List Tk) (depth : Nat) (rest : List Tk) (s : PState) (F : Nat),
+    SeesT env s toks → skipF depth toks = some rest → toks.length - rest.length + 1 ≤ F →
+    ∃ s', run F (.scanParenSkip depth) s = .ok true s' ∧ SeesT env s' rest ∧ s'.idx + rest.length = s.idx + toks.length
+  | [], depth, rest, s, F, _, h, _ => by simp [skipF] at h
+  | (k, v) :: r, depth, rest, s, F, hs, h, hF => by
+    have hlen := skipF_len _ _ _ h
+    obtain ⟨G, rfl⟩ : ∃ G, F = G + 1 := ⟨F - 1, by simp at hF hlen; omega⟩
+    obtain ⟨s1, h1, hs1, _, hi1, _⟩ := peek_spec s k v r hs
+    obtain ⟨s2, h2, hs2, _, hi2, _⟩ := advance_spec s1 k v r hs1
+    simp only [List.length_cons] at hF hlen
+    by_cases hl : k = "LPAREN"
+    · subst hl
+      simp only [skipF, beq_self_eq_true, ↓reduceIte] at h
+      have hl2 := skipF_len _ _ _ h
+      obtain ⟨s3, h3, hs3, hi3⟩ := scanParenSkip_ok r (depth + 1) rest s2 G hs2 h (by omega)
+      refine ⟨s3, ?_, hs3, by simp; omega⟩
+      show pScanParenSkip (run G) depth s = _
+      simp [pScanParenSkip, DeclSkel.bnd, h1, h2, h3]
+    · by_cases hr : k = "RPAREN"
+      · subst hr
+        simp only [skipF, show (("RPAREN" : String) == "LPAREN") = false from rfl, Bool.false_eq_true, ↓reduceIte,
+          beq_self_eq_true] at h
+        by_cases hd : (depth - 1 == 0) = true
+        · simp only [hd, ↓reduceIte, Option.some.injEq] at h
+          subst h
+          refine ⟨s2, ?_, hs2, by simp; omega⟩
+          show pScanParenSkip (run G) depth s = _
+          simp [pScanParenSkip, DeclSkel.bnd, h1, h2, hd, DeclSkel.pur]
+        · have hd' : (depth - 1 == 0) = false := by simpa using hd
+          simp only [hd', Bool.false_eq_true, ↓reduceIte] at h
+          have hl2 := skipF_len _ _ _ h
+          obtain ⟨s3, h3, hs3, hi3⟩ := scanParenSkip_ok r (depth - 1) rest s2 G hs2 h (by omega)
+          refine ⟨s3, ?_, hs3, by simp; omega⟩
+          show pScanParenSkip (run G) depth s = _
+          simp [pScanParenSkip, DeclSkel.bnd, h1, h2, hd', h3]
+      · have e1 : (k == "LPAREN") = false := by simpa using hl
+        have e2 : (k == "RPAREN") = false := by simpa using hr
+        simp only [skipF, e1, e2, Bool.false_eq_true, ↓reduceIte] at h
+        have hl2 := skipF_len _ _ _ h
+        obtain ⟨s3, h3, hs3, hi3⟩ := scanParenSkip_ok r depth rest s2 G hs2 h (by omega)
+        refine ⟨s3, ?_, hs3, by simp; omega⟩
+        show pScanParenSkip (run G) depth s = _
+        simp [pScanParenSkip, DeclSkel.bnd, h1, h2, hl, hr, h3]
+
+/-! ## expressions are balanced -/
+
+theorem notParen_of_mem {k : String} {l : List String} (h : k ∈ l) (h1 : "LPAREN" ∉ l) (h2 : "RPAREN" ∉ l) :
+    k ≠ "LPAREN" ∧ k ≠ "RPAREN" :=
+  ⟨fun e => h1 (e ▸ h), fun e => h2 (e ▸ h)⟩
+
+theorem bal_flat {L : Nat} {e : X} (hw : WFX L e) : Bal e.flat := by
+  induction hw with
+  | id L x => exact Bal.single _ (by simp) (by simp)
+  | const L k v t hc =>
+    obtain ⟨h1, h2⟩ := notParen_of_mem (constType_kind hc) (by decide) (by decide)
+    exact Bal.single _ h1 h2
+  | paren L e _ ih => exact .paren _ _ _ [] ih .nil
+  | pre L k v e _ hk _ ih =>
+    obtain ⟨h1, h2⟩ := notParen_of_mem hk (by decide) (by decide)
+    exact .tok _ _ h1 h2 ih
+  | szof L e _ _ ih => exact .tok _ _ (by decide) (by decide) ih
+  | post L k v e _ hk _ ih =>
+    obtain ⟨h1, h2⟩ := notParen_of_mem hk (by decide) (by decide)
+    exact ih.append (Bal.single _ h1 h2)
+  | index L e i _ _ _ ih1 ih2 =>
+    exact ih1.append (.tok _ _ (by decide) (by decide) (ih2.append (Bal.single _ (by decide) (by decide))))
+  | member L k v e f _ hk _ ih =>
+    obtain ⟨h1, h2⟩ := notParen_of_mem hk (by decide) (by decide)
+    exact ih.append (.tok _ _ h1 h2 (Bal.single _ (by simp) (by simp)))
+  | call0 L f _ _ ih => exact ih.append (.paren _ _ [] [] .nil .nil)
+  | call L f a _ _ _ ih1 ih2 => exact ih1.append (.paren _ _ _ [] ih2 .nil)
+  | bin L p k v l r hp _ _ _ ih1 ih2 =>
+    have h1 : k ≠ "LPAREN" := by rintro rfl; simp [binPrec, binaryPrecedence] at hp
+    have h2 : k ≠ "RPAREN" := by rintro rfl; simp [binPrec, binaryPrecedence] at hp
+    simp only [X.flat]
+    exact (ih1.append (Bal.single _ h1 h2)).append ih2
+  | cond L c t f _ _ _ _ ih1 ih2 ih3 =>
+    simp only [X.flat]
+    exact (((ih1.append (Bal.single _ (by decide) (by decide))).append ih2).append (Bal.single _ (by decide) (by decide))).append ih3
+  | assign L k v l r _ hk _ _ ih1 ih2 =>
+    obtain ⟨h1, h2⟩ := notParen_of_mem hk (by decide) (by decide)
+    simp only [X.flat]
+    exact (ih1.append (Bal.single _ h1 h2)).append ih2
+  | comma a b _ _ ih1 ih2 =>
+    simp only [X.flat]
+    exact (ih1.append (Bal.single _ (by decide) (by decide))).append ih2
+
+/-! ## the scan on any declarator -/
+
+/-- the tokens of a declarator the scan leaves unread (what follows the name outside any
+parentheses the scan has closed) -/
+def scanRest : D → List Tk
+  | .name _ => []
+  | .paren _ => []
+  | .ptr _ d => scanRest d
+  | .arr d dim => scanRest d ++ ("LBRACKET", "[") :: (oflat dim ++ [("RBRACKET", "]")])
+  | .fn0 d => scanRest d ++ [("LPAREN", "("), ("RPAREN", ")")]
+
+theorem bal_scanRest {d : D} (hwf : WFD d) : Bal (scanRest d) := by
+  induction hwf with
+  | name x => exact .nil
+  | paren d _ _ => exact .nil
+  | ptr stars d _ _ _ _ ih => exact ih
+  | arr d dim _ _ hdim ih =>
+    have hb : Bal (oflat dim) := by
+      cases dim with
+      | none => exact .nil
+      | some e => exact bal_flat (hdim e rfl)
+    exact ih.append (.tok _ _ (by decide) (by decide) (hb.append (Bal.single _ (by decide) (by decide))))
+  | fn0 d _ _ ih => exact ih.append (.paren _ _ [] [] .nil .nil)
+
+theorem scanRest_le : ∀ d : D, (scanRest d).length ≤ d.ntoks
+  | .name _ => by simp [scanRest]
+  | .paren d => by simp [scanRest]
+  | .ptr st d => by have := scanRest_le d; simp only [scanRest, D.ntoks]; omega
+  | .arr d dim => by
+    have := scanRest_le d
+    simp only [scanRest, D.ntoks, List.length_append, List.length_cons, DeclSkel.oflat_length, List.length_nil]; omega
+  | .fn0 d => by have := scanRest_le d; simp [scanRest, D.ntoks]; omega
+
+/-- the part of `_scan_declarator_name_info` after the stars -/
+def scanBody (self : Self) : P (Option String × Bool) := do
+  match ← peek with
+  | none => pure (none, false)
+  | some tok =>
+    if tok.kind == "ID" || tok.kind == "TYPEID" then
+      let _ ← advance
+      pure (some tok.kind, false)
+    else if tok.kind == "LPAREN" then
+      let _ ← advance
+      let (tokType, _) ← self .scanDeclaratorNameInfo
+      if ← self (.scanParenSkip 1) then pure (tokType, true) else pure (none, true)
+    else pure (none, false)
+
+theorem scan_unfold (self : Self) : pScanDeclaratorNameInfo self = (do self .scanStars; scanBody self) := rfl
+
+def sawParen : D → Bool
+  | .name _ => false
+  | .paren _ => true
+  | .ptr _ d => sawParen d
+  | .arr d _ => sawParen d
+  | .fn0 d => sawParen d
+
+/-- what the two parts of the scan do on a declarator -/
+def ScanOK (env : Env) (d : D) : Prop :=
+  ∀ (s : PState) (rest : List Tk) (F : Nat), SeesT env s (d.flat ++ rest) → d.ntoks + 3 ≤ F →
+    ∃ s', run F .scanDeclaratorNameInfo s = .ok (some "ID", sawParen d) s' ∧ SeesT env s' (scanRest d ++ rest) ∧
+      s'.idx + (scanRest d).length = s.idx + d.ntoks
+
+def BodyOK (env : Env) (d : D) : Prop :=
+  d.isDirect = true → ∀ (s : PState) (rest : List Tk) (G : Nat), SeesT env s (d.flat ++ rest) → d.ntoks + 2 ≤ G →
+    ∃ s', scanBody (run G) s = .ok (some "ID", sawParen d) s' ∧ SeesT env s' (scanRest d ++ rest) ∧
+      s'.idx + (scanRest d).length = s.idx + d.ntoks
+
+theorem scan_of_body_direct (d : D) (hd : d.isDirect = true) (hwf : WFD d) (hb : BodyOK env d) : ScanOK env d := by
+  intro s rest F hs hF
+  obtain ⟨G, rfl⟩ : ∃ G, F = G + 1 := ⟨F - 1, by omega⟩
+  obtain ⟨t, r, hfl, ht⟩ := direct_head hwf hd
+  have hs0 : SeesT env s (starsFlat [] ++ ((t.1, t.2) :: (r ++ rest))) := by simpa [starsFlat, hfl] using hs
+  obtain ⟨s1, h1, hs1, hi1⟩ := scanStars_loop [] s _ G (by intro q hq; cases hq)
+    (by intro k v r' h; simp only [List.cons.injEq, Prod.mk.injEq] at h; rw [← h.1.1]
+        rcases ht with h' | h' <;> rw [h'] <;> exact ⟨by decide, by decide⟩) hs0 (by simp [starsNtoks]; omega)
+  have hs1' : SeesT env s1 (d.flat ++ rest) := by simpa [hfl] using hs1
+  obtain ⟨s2, h2, hs2, hi2⟩ := hb hd s1 rest G hs1' (by omega)
+  refine ⟨s2, ?_, hs2, by simp [starsNtoks] at hi1; omega⟩
+  show pScanDeclaratorNameInfo (run G) s = _
+  rw [scan_unfold]
+  simp only [DeclSkel.bnd, h1, h2]
+
+theorem all_scan : ∀ d : D, WFD d → ScanOK env d ∧ BodyOK env d := by
+  intro d hwf
+  induction hwf with
+  | name x =>
+    have hb : BodyOK env (.name x) := by
+      intro _ s rest G hs hG
+      have hs0 : SeesT env s (("ID", x) :: rest) := by simpa [D.flat] using hs
+      obtain ⟨s1, h1, hs1, _, hi1, _⟩ := peek_spec s "ID" x rest hs0
+      obtain ⟨s2, h2, hs2, _, hi2, _⟩ := advance_spec s1 "ID" x rest hs1
+      refine ⟨s2, ?_, by simpa [scanRest] using hs2, by simp [scanRest, D.ntoks]; omega⟩
+      simp [scanBody, DeclSkel.bnd, h1, h2, DeclSkel.pur, sawParen]
+    exact ⟨scan_of_body_direct _ rfl (.name x) hb, hb⟩
+  | paren d hwd ih =>
+    have hb : BodyOK env (.paren d) := by
+      intro _ s rest G hs hG
+      obtain ⟨G', rfl⟩ : ∃ G', G = G' + 1 := ⟨G - 1, by omega⟩
+      simp only [D.ntoks] at hG
+      have hs0 : SeesT env s (("LPAREN", "(") :: (d.flat ++ ("RPAREN", ")") :: rest)) := by simpa [D.flat, List.append_assoc] using hs
+      obtain ⟨s1, h1, hs1, _, hi1, _⟩ := peek_spec s "LPAREN" "(" _ hs0
+      obtain ⟨s2, h2, hs2, _, hi2, _⟩ := advance_spec s1 "LPAREN" "(" _ hs1
+      obtain ⟨s3, h3, hs3, hi3⟩ := ih.1 s2 _ (G' + 1) hs2 (by omega)
+      have hsk : skipF 1 (scanRest d ++ ("RPAREN", ")") :: rest) = some rest := by
+        rw [skip_bal (bal_scanRest hwd) 0, skip_close]
+      have := scanRest_le d
+      obtain ⟨s4, h4, hs4, hi4⟩ := scanParenSkip_ok _ 1 rest s3 (G' + 1) hs3 hsk (by simp; omega)
+      refine ⟨s4, ?_, by simpa [scanRest] using hs4, by simp [scanRest, D.ntoks] at hi4 ⊢; omega⟩
+      simp [scanBody, DeclSkel.bnd, h1, h2, h3, h4, DeclSkel.pur, sawParen]
+    exact ⟨scan_of_body_direct _ rfl (.paren d hwd) hb, hb⟩
+  | ptr stars d hne hq hwd hdir ih =>
+    refine ⟨?_, by intro h; simp [D.isDirect] at h⟩
+    intro s rest F hs hF
+    obtain ⟨G, rfl⟩ : ∃ G, F = G + 1 := ⟨F - 1, by omega⟩
+    simp only [D.ntoks] at hF
+    obtain ⟨t, r, hfl, ht⟩ := direct_head hwd hdir
+    have hs0 : SeesT env s (starsFlat stars ++ ((t.1, t.2) :: (r ++ rest))) := by simpa [D.flat, hfl, List.append_assoc] using hs
+    obtain ⟨s1, h1, hs1, hi1⟩ := scanStars_loop stars s _ G hq
+      (by intro k v r' h; simp only [List.cons.injEq, Prod.mk.injEq] at h; rw [← h.1.1]
+          rcases ht with h' | h' <;> rw [h'] <;> exact ⟨by decide, by decide⟩) hs0 (by omega)
+    have hs1' : SeesT env s1 (d.flat ++ rest) := by simpa [hfl] using hs1
+    obtain ⟨s2, h2, hs2, hi2⟩ := ih.2 hdir s1 rest G hs1' (by omega)
+    refine ⟨s2, ?_, by simpa [scanRest] using hs2, by simp only [scanRest, D.ntoks]; omega⟩
+    show pScanDeclaratorNameInfo (run G) s = _
+    rw [scan_unfold]
+    simp only [DeclSkel.bnd, h1, h2, sawParen]
+  | arr d dim hwd hdir hdim ih =>
+    have hb : BodyOK env (.arr d dim) := by
+      intro _ s rest G hs hG
+      simp only [D.ntoks] at hG
+      have hs0 : SeesT env s (d.flat ++ (("LBRACKET", "[") :: (oflat dim ++ [("RBRACKET", "]")]) ++ rest)) := by
+        simpa [D.flat, List.append_assoc] using hs
+      obtain ⟨s1, h1, hs1, hi1⟩ := ih.2 hdir s _ G hs0 (by omega)
+      refine ⟨s1, by simpa [sawParen] using h1, by simpa [scanRest, List.append_assoc] using hs1, ?_⟩
+      simp only [scanRest, D.ntoks, List.length_append, List.length_cons, DeclSkel.oflat_length, List.length_nil] at hi1 ⊢
+      omega
+    exact ⟨scan_of_body_direct _ rfl (.arr d dim hwd hdir hdim) hb, hb⟩
+  | fn0 d hwd hdir ih =>
+    have hb : BodyOK env (.fn0 d) := by
+      intro _ s rest G hs hG
+      simp only [D.ntoks] at hG
+      have hs0 : SeesT env s (d.flat ++ ([("LPAREN", "("), ("RPAREN", ")")] ++ rest)) := by
+        simpa [D.flat, List.append_assoc] using hs
+      obtain ⟨s1, h1, hs1, hi1⟩ := ih.2 hdir s _ G hs0 (by omega)
+      refine ⟨s1, by simpa [sawParen] using h1, by simpa [scanRest, List.append_assoc] using hs1, ?_⟩
+      simp [scanRest, D.ntoks] at hi1 ⊢
+      omega
+    exact ⟨scan_of_body_direct _ rfl (.fn0 d hwd hdir) hb, hb⟩
+
+/-- **the look-ahead scan and the reset, for every named declarator** (grouping parentheses
+included): the scan finds the identifier, `_reset(mark)` goes back to the first token -/
+theorem scan_ok (d : D) (hwf : WFD d) (s : PState) (rest : List Tk)
+    (hs : SeesT env s (d.flat ++ rest)) (F : Nat) (hF : d.ntoks + 3 ≤ F) :
+    ∃ s3 b, run F .scanDeclaratorNameInfo s = .ok (some "ID", b) s3 ∧
+      ∃ s4, reset s.idx s3 = .ok () s4 ∧ SeesT env s4 (d.flat ++ rest) ∧ s4.idx = s.idx := by
+  obtain ⟨s3, h3, hs3, hi3⟩ := (all_scan d hwf).1 s rest F hs hF
+  have := scanRest_le d
+  obtain ⟨s4, h4, hs4, hi4⟩ := reset_to s s3 _ _ hs hs3 (by omega)
+  exact ⟨s3, _, h3, s4, h4, hs4, hi4⟩
+
+/-- **`_parse_any_declarator`** on every named declarator -/
+theorem anyDeclarator_ok (d : D) (hwf : WFD d) (s : PState) (rest : List Tk)
+    (hs : SeesT env s (d.flat ++ rest)) (hfo : FollowD rest) (F : Nat) (hF : d.fuel + d.ntoks + 5 ≤ F)
     (allowAbstract typeidParenAsAbstract : Bool := false) :
     ∃ s', run F (.anyDeclarator allowAbstract typeidParenAsAbstract) s = .ok (chainVal (d.chain s.idx) (d.td s.idx), true) s' ∧
       SeesT env s' rest ∧ s'.idx = s.idx + d.ntoks := by
   obtain ⟨G, rfl⟩ : ∃ G, F = G + 1 := ⟨F - 1, by omega⟩
-  obtain ⟨s3, hscan, s4, h4, hs4, hi4⟩ := scan_ok d hwf hn s rest hs G (by omega)
+  obtain ⟨s3, b, hscan, s4, h4, hs4, hi4⟩ := scan_ok d hwf s rest hs G (by omega)
   obtain ⟨s5, h5, hs5, hi5⟩ := parse_declarator d hwf s4 rest hs4 hfo G (by omega)
   refine ⟨s5, ?_, hs5, by omega⟩
   rw [hi4] at h5
@@ -405,11 +695,10 @@ structure IDc where
 def IDc.ntoks (it : IDc) : Nat := it.d.ntoks + (match it.init with | none => 0 | some e => 1 + e.ntoks)
 def IDc.flat (it : IDc) : List Tk :=
   it.d.flat ++ (match it.init with | none => [] | some e => ("EQUALS", "=") :: e.flat)
-def IDc.fuel (it : IDc) : Nat := it.d.fuel + starsNtoks (dStars it.d) + ofuel it.init + 8
+def IDc.fuel (it : IDc) : Nat := it.d.fuel + it.d.ntoks + ofuel it.init + 8
 
 structure WFI (it : IDc) : Prop where
   wfd : WFD it.d
-  noParen : NoParen it.d
   wfx : ∀ e, it.init = some e → WFX 1 e
 
 /-- the `_DeclInfo` the parser builds for it (`n`: position of its first token) -/
@@ -444,7 +733,7 @@ theorem initDeclarator_ok (it : IDc) (hwf : WFI it) (s : PState) (stop : Tk) (re
   cases hi : it.init with
   | none =>
     have hs0 : SeesT env s (it.d.flat ++ (k0, v0) :: rest) := by simpa [IDc.flat, hi] using hs
-    obtain ⟨s1, h1, hs1, hi1⟩ := anyDeclarator_ok it.d hwf.wfd hwf.noParen s _ hs0
+    obtain ⟨s1, h1, hs1, hi1⟩ := anyDeclarator_ok it.d hwf.wfd s _ hs0
       (by intro k v r h; simp only [List.cons.injEq, Prod.mk.injEq] at h
           rcases hstop with h' | h' <;> simp only at h' <;> rw [← h.1.1, h'] <;> exact ⟨by decide, by decide⟩) G (by simp [ofuel, hi] at hF; omega)
     obtain ⟨s2, h2, hs2, hi2⟩ := accept_other s1 _ "EQUALS" hs1 (by
@@ -462,7 +751,7 @@ theorem initDeclarator_ok (it : IDc) (hwf : WFI it) (s : PState) (stop : Tk) (re
     have hwe := hwf.wfx e hi
     have hs0 : SeesT env s (it.d.flat ++ ("EQUALS", "=") :: (e.flat ++ (k0, v0) :: rest)) := by
       simpa [IDc.flat, hi, List.append_assoc] using hs
-    obtain ⟨s1, h1, hs1, hi1⟩ := anyDeclarator_ok it.d hwf.wfd hwf.noParen s _ hs0
+    obtain ⟨s1, h1, hs1, hi1⟩ := anyDeclarator_ok it.d hwf.wfd s _ hs0
       (by intro k v r h; simp only [List.cons.injEq, Prod.mk.injEq] at h; rw [← h.1.1]; exact ⟨by decide, by decide⟩) G
       (by simp [ofuel, hi] at hF; omega)
     obtain ⟨s2, h2, hs2, hi2, _⟩ := accept_same s1 "EQUALS" "=" _ hs1
@@ -708,12 +997,21 @@ theorem restDIs_names : ∀ (its : List IDc) (n : Nat), (restDIs n its).map (·.
   | [], _ => rfl
   | it :: r, n => by simp [restDIs, IDc.di, restDIs_names r]
 
-theorem declarator_head {d : D} (hwf : WFD d) (hn : NoParen d) :
-    ∃ k v r, d.flat = (k, v) :: r ∧ (k = "TIMES" ∨ k = "ID") := by
-  rw [flat_noParen hwf hn]
-  cases hst : dStars d with
-  | nil => exact ⟨_, _, _, rfl, .inr rfl⟩
-  | cons q r => exact ⟨_, _, _, rfl, .inl rfl⟩
+theorem declarator_head {d : D} (hwf : WFD d) :
+    ∃ k v r, d.flat = (k, v) :: r ∧ (k = "TIMES" ∨ k = "ID" ∨ k = "LPAREN") := by
+  cases hwf with
+  | ptr stars d hne _ _ _ =>
+    cases stars with
+    | nil => exact absurd rfl hne
+    | cons q r => exact ⟨_, _, _, rfl, .inl rfl⟩
+  | name x => exact ⟨_, _, _, rfl, .inr (.inl rfl)⟩
+  | paren d h => exact ⟨_, _, _, rfl, .inr (.inr rfl)⟩
+  | arr d dim h hd hx =>
+    obtain ⟨t, r, hfl, ht⟩ := direct_head (.arr d dim h hd hx) rfl
+    exact ⟨t.1, t.2, r, hfl, .inr ht⟩
+  | fn0 d h hd =>
+    obtain ⟨t, r, hfl, ht⟩ := direct_head (.fn0 d h hd) rfl
+    exact ⟨t.1, t.2, r, hfl, .inr ht⟩
 
 theorem sawAfter_ne_nil {l : List Tk} (h : sawAfter false l = true) : l ≠ [] := by
   rintro rfl; simp [sawAfter] at h
@@ -725,7 +1023,7 @@ theorem parse_declBody (dc : Dcl) (hwf : WFDcl dc) (hty : ∀ x ∈ dc.names, en
       s'.idx + 1 = s.idx + dc.ntoks := by
   obtain ⟨G, rfl⟩ : ∃ G, F = G + 1 := ⟨F - 1, by simp only [Dcl.fuel] at hF; omega⟩
   simp only [Dcl.fuel] at hF
-  obtain ⟨k1, v1, r1, hd1, hk1⟩ := declarator_head hwf.first.wfd hwf.first.noParen
+  obtain ⟨k1, v1, r1, hd1, hk1⟩ := declarator_head hwf.first.wfd
   -- the specifiers
   have hs0 : SeesT env s (dc.specs ++ (dc.first.flat ++ (restFlat dc.more ++ ("SEMI", ";") :: rest))) := by
     simpa [Dcl.body, List.append_assoc] using hs
@@ -733,7 +1031,7 @@ theorem parse_declBody (dc : Dcl) (hwf : WFDcl dc) (hty : ∀ x ∈ dc.names, en
     intro k v r h
     simp only [IDc.flat, hd1, List.cons_append, List.append_assoc, List.cons.injEq, Prod.mk.injEq] at h
     rw [← h.1.1]
-    rcases hk1 with rfl | rfl <;> decide
+    rcases hk1 with rfl | rfl | rfl <;> decide
   obtain ⟨s1, h1, hs1, hi1⟩ := specs_loop dc.specs {} false false none s _ G hwf.specToks hfo hs0 (by omega) (fun _ => rfl)
   have hne := sawAfter_ne_nil hwf.sawType
   have hsome : (if (false || !dc.specs.isEmpty) = true then some (foldSpec s.idx {} dc.specs) else none) =
@@ -772,7 +1070,7 @@ theorem parse_declBody (dc : Dcl) (hwf : WFDcl dc) (hty : ∀ x ∈ dc.names, en
   refine ⟨s5, ?_, hs5, by simp only [Dcl.ntoks]; omega⟩
   have hstart : startsDeclarator false s1 = .ok true s2 := by
     simp only [startsDeclarator, DeclSkel.bnd, h2, List.head?_cons, Option.map_some, DeclSkel.pur]
-    rcases hk1 with rfl | rfl <;> rfl
+    rcases hk1 with rfl | rfl | rfl <;> rfl
   simp only [List.map_cons, List.singleton_append] at h4 h5
   show pDeclBody (run G) s = _
   simp only [pDeclBody, pDeclSpecs, DeclSkel.bnd]
